@@ -13,7 +13,12 @@ import (
 	"net/http"
 	"net/textproto"
 	"strings"
+	"time"
 )
+
+// HandshakeTimeout is the time the client allows an upstream for the whole SocketAce handshake
+// (announce, upgrade and StartTLS).
+var HandshakeTimeout = 30 * time.Second
 
 // ClientConnection represents a client to the socketace server. It announces the client to the server,
 // checks the server and establishes the connection.
@@ -42,6 +47,12 @@ func NewClientConnection(c net.Conn, manager cert.TlsConfig, secure bool, host s
 		connection.securityTech = SecurityNone
 	}
 
+	// An upstream that accepts the connection but never answers must not block the client for ever
+	// (the next upstream in the list is tried when this one fails).
+	if err := c.SetDeadline(time.Now().Add(HandshakeTimeout)); err != nil {
+		log.WithError(err).Debugf("Could not set the handshake deadline: %v", err)
+	}
+
 	log.Debugf("[Client] SocketAce handshake...")
 	if err := connection.handshake(conn); err != nil {
 		return nil, errors.Wrapf(err, "Could not negotiate protocol version: %v", err)
@@ -54,6 +65,10 @@ func NewClientConnection(c net.Conn, manager cert.TlsConfig, secure bool, host s
 		return nil, errors.Wrapf(err, "Could not upgrade connection: %v", err)
 	} else {
 		connection.Connection = client
+	}
+
+	if err := c.SetDeadline(time.Time{}); err != nil {
+		log.WithError(err).Debugf("Could not clear the handshake deadline: %v", err)
 	}
 
 	return connection, nil
